@@ -5,6 +5,7 @@
     error or panic).  This file contains only statements (closed by [exact] or
     a short application of lemmas), their pins and their assumptions. *)
 From RepeV Require Import Model.OffReader Proofs.OffReaderProofs.
+From RepeV Require Import Gen.Tables Proofs.TablesC01 Proofs.TablesMisc.
 
 (** the number of held permits never exceeds the cap: in every state reachable
     by ANY event list (every prefix of every history, well-formed or not), and
@@ -287,3 +288,13 @@ Print Assumptions C16_others_unaffected_by_panic.
 Print Assumptions C16_execution_preserved_through_middleware.
 Print Assumptions C16_reader_never_waits.
 Print Assumptions C16_holds.
+
+(** constants of the model are the ones re-read from the Rust source on this run *)
+Theorem C16_source_tables :
+  agrees src_ErrorCode_Ok OffReader.EC_OK /\ agrees src_ErrorCode_ResourceExhausted OffReader.EC_RESOURCE_EXHAUSTED /\
+  agrees src_ErrorCode_InternalError OffReader.EC_INTERNAL_ERROR.
+Proof. exact c16_error_codes_agree. Qed.
+Check C16_source_tables :
+  agrees src_ErrorCode_Ok OffReader.EC_OK /\ agrees src_ErrorCode_ResourceExhausted OffReader.EC_RESOURCE_EXHAUSTED /\
+  agrees src_ErrorCode_InternalError OffReader.EC_INTERNAL_ERROR.
+Print Assumptions C16_source_tables.
